@@ -107,6 +107,15 @@ func walBatches(thorough bool) []walBatch {
 	}
 	// a batch holding an entry larger than one record: either it is appended completely or it fails without a trace
 	bs = append(bs, walBatch{"b-oversize", []walShape{sm, {"big", 4, 40000, false}, dl}})
+	// the same on the exact boundary: an entry of 17 + K + V bytes fills one record exactly (accepted) or is one byte
+	// too large (the whole batch is rejected, nothing of it may reach the log); the large entry is not the first one
+	const M = wal.MaxRecordSize
+	bs = append(bs, walBatch{"b-rec=", []walShape{sm, {"edge", 4, M - 17 - 4, false}, dl}})
+	bs = append(bs, walBatch{"b-oversize-by-1", []walShape{sm, {"edge", 4, M - 17 - 4 + 1, false}, dl}})
+	if thorough {
+		bs = append(bs, walBatch{"b-oversize-del-by-1", []walShape{sm, dl, {"edgekey", M - 13 + 1, 0, true}}})
+		bs = append(bs, walBatch{"b-oversize-at-M", []walShape{sm, {"edge", 4, M - 4, false}, dl}})
+	}
 	if thorough {
 		bs = append(bs, walBatch{"b3x30k", []walShape{{"x", 4, 30720, false}, {"y", 4, 30720, false}, {"z", 4, 30720, false}}})
 	}
@@ -165,7 +174,7 @@ func runWalProg(dir string, prog walProg, thorough bool, mode config.SyncMode) (
 			}
 			seq, err := w.AppendBatch(ents)
 			if err != nil {
-				if sym == "b:b-oversize" {
+				if strings.HasPrefix(sym, "b:b-oversize") {
 					continue // a rejected batch is legal; it must leave no trace (checked by the replay comparison)
 				}
 				return exp, w, fmt.Errorf("batch %s: %w", sym, err)
@@ -345,7 +354,7 @@ func init() {
 	fw.Register(&fw.Check{
 		ID:    "C09",
 		Level: "model_checking",
-		Rule: "all programs up to depth 3 (4 thorough) over the alphabet {append of 13 (20) key/value shapes on the record-format boundaries (payload 32767/32768/32769, 2 fragments+1, data behind the first fragment exactly 1x / 2x the fragment size for puts and a delete, key longer than the first fragment, fragmented delete, empty value), 5 (6) batches incl. totals 64KiB-1/64KiB/64KiB+1, rotate, reopen} with <=1 (2) rotate/reopen, under sync modes immediate and none; oracle: ReplayWALDir == appended list (type,key,value,seq) and GetEntriesFrom(s) for every s in [0,max+2]; non-trivial = programs with >=2 symbols",
+		Rule: "all programs up to depth 3 (4 thorough) over the alphabet {append of 13 (20) key/value shapes on the record-format boundaries (payload 32767/32768/32769, 2 fragments+1, data behind the first fragment exactly 1x / 2x the fragment size for puts and a delete, key longer than the first fragment, fragmented delete, empty value), 7 (10) batches incl. totals 64KiB-1/64KiB/64KiB+1, an entry that fills a record exactly and entries too large by one byte / by far behind a small first entry (rejected: nothing of the batch may be in the log), rotate, reopen} with <=1 (2) rotate/reopen, under sync modes immediate and none; oracle: ReplayWALDir == appended list (type,key,value,seq) and GetEntriesFrom(s) for every s in [0,max+2]; non-trivial = programs with >=2 symbols",
 		Assumptions: []string{"sequence hand-over at rotation is done by the harness as the engine is supposed to do it (UpdateNextSequence)", "file names come from the real clock; two files created in the same nanosecond are not modelled"},
 		Units: func(tier string) []string {
 			var us []string
